@@ -510,7 +510,8 @@ func c06Exec(line string) string {
 
 // ---------------------------------------------------------------------------------- generator
 
-var c06AIds = []string{"a", "b", "c", "d", "e"}
+// "p" is also an id of store B: ids are per store, and a cascade must not confuse the two
+var c06AIds = []string{"a", "b", "c", "d", "e", "p"}
 var c06BIds = []string{"p", "q", "r"}
 var c06Vals = []string{"x", "y", "zq"}
 var c06RoleVals = []string{"m", "nq", "x"}
@@ -917,7 +918,7 @@ func c06GenOp(r *rng, sh *c06Shadow, aIds []string) c06Op {
 }
 
 func c06GenHistory(r *rng, nTx int) string {
-	aIds := c06AIds[:3+r.intn(3)]
+	aIds := c06AIds[:3+r.intn(4)]
 	sh := &c06Shadow{a: map[string]*c06Op{}, b: map[string]bool{}}
 	var txs []string
 	for t := 0; t < nTx; t++ {
